@@ -61,9 +61,11 @@ inductive Step (c : Cfg) : State → Act → State → Prop where
       Step c s ⟨f, .nset⟩ { setFork s f { s.forks f with pc := .wPut } with linked := j + 2 }
   | bacq {s f j} : f < c.n → (s.forks f).cur = some j → boxFree c s f j = true → (s.forks f).pc = .bAcq →
       Step c s ⟨f, .bacq⟩ (setFork s f { s.forks f with pc := .bInc })
-  | inc {s f j} : f < c.n → (s.forks f).cur = some j → (s.forks f).pc = .bInc →
+  | incRead {s f j} : f < c.n → (s.forks f).cur = some j → (s.forks f).pc = .bInc →
+      Step c s ⟨f, .ncmp⟩ (setFork s f { s.forks f with pc := .bIncW, tmp := s.cnt j })
+  | inc {s f j} : f < c.n → (s.forks f).cur = some j → (s.forks f).pc = .bIncW →
       Step c s ⟨f, .inc⟩ { setFork s f { s.forks f with pc := .bCmp, inc := (s.forks f).inc + 1 } with
-        cnt := fun i => if i = j then s.cnt j + 1 else s.cnt i }
+        cnt := fun i => if i = j then (s.forks f).tmp + 1 else s.cnt i }
   | cmp {s f j} : f < c.n → (s.forks f).cur = some j → (s.forks f).pc = .bCmp →
       Step c s ⟨f, .ncmp⟩ (setFork s f { s.forks f with pc := if s.cnt j = c.n then .bGet else .bRel })
   | get {s f} : f < c.n → s.popped < s.put → (s.forks f).pc = .bGet →
@@ -156,7 +158,8 @@ theorem step_sound (c : Cfg) (s s' : State) (a : Act) (h : step c s a = some s')
     subst h; rename_i j hc hp; exact .inc hf hc hp
   case ncmp =>
     split at h <;> simp at h
-    subst h; rename_i j hc hp; exact .cmp hf hc hp
+    · subst h; rename_i j hc hp; exact .incRead hf hc hp
+    · subst h; rename_i j hc hp; exact .cmp hf hc hp
   case get =>
     split at h
     · rename_i hl; split at h <;> simp at h
